@@ -20,6 +20,17 @@ def run(c, p):
         r = getattr(np, op)(a)
     elif kind == "rr":
         r = getattr(np, op)(a, b)
+    elif kind == "rr_shared":
+        # two run-length operands derived from one array (scalar ufuncs keep its run boundaries): the binary result must still be canonical
+        s1, s2 = pyint(c["s"]), pyint(c["s2"])
+        if op == "between":
+            r = np.logical_and(np.greater(a, s1), np.less(a, s2))
+        elif op == "selfsub":
+            r = np.subtract(a, a)
+        elif op == "timesmask":
+            r = np.multiply(np.add(a, s1), np.greater(a, s2))
+        else:
+            raise ValueError(op)
     elif kind == "rs":
         r = getattr(np, op)(a, pyint(c["s"]))
     elif kind == "sr":
@@ -34,6 +45,14 @@ def run(c, p):
         parts = [a, b] + ([RunLengthArray.from_array(typed(c["c3"], "int64"))] if c.get("c3") is not None else [])
         r = np.concatenate(parts)
     return ("rla", r.to_array(), r._events, r._values), a.to_array(), (b.to_array() if b is not None else None)
+
+
+def _shared_dense(np_, op, da, s1, s2):
+    if op == "between":
+        return np_.logical_and(np_.greater(da, s1), np_.less(da, s2))
+    if op == "selfsub":
+        return np_.subtract(da, da)
+    return np_.multiply(np_.add(da, s1), np_.greater(da, s2))
 
 
 def sym(E, p, kf):
@@ -55,6 +74,8 @@ def sym(E, p, kf):
             c["c3"] = c14.gen_vals(E, E.concretize(E.int("m3", 1, 2)), "int64", "c")
     elif kind in ("rs", "sr", "opr"):
         c["s"] = E.int("s", -100, 100)
+    elif kind == "rr_shared":
+        c["s"], c["s2"] = E.int("s", -100, 100), E.int("s2", -100, 100)
     if kind == "reduce" and op in ("sum", "npsum", "mean", "npmean"):
         for i in range(n - 1):
             E.branch(a[i] == a[i + 1])          # fork the run layout: run lengths become concrete
@@ -108,6 +129,8 @@ def sym(E, p, kf):
         exp = getattr(np, op)(da)
     elif kind == "rr":
         exp = getattr(np, op)(da, typed(c["b"], dtb))
+    elif kind == "rr_shared":
+        exp = _shared_dense(np, op, da, pyint(c["s"]), pyint(c["s2"]))
     elif kind == "rs":
         exp = getattr(np, op)(da, pyint(c["s"]))
     elif kind == "sr":
@@ -119,7 +142,7 @@ def sym(E, p, kf):
         exp = np.concatenate([da, typed(c["b"], dtb)] + ([typed(c["c3"], "int64")] if c.get("c3") is not None else []))
     tag, dense, ev, vv = res["items"]
     conds.append(specs.obs_goal(dense, dict(k="array", flat=cells(exp), shape=[exp.shape[0]], dtype=common.dtname(exp))))
-    conds += c14.canon_conds(ev["flat"], vv["flat"], exp.shape[0], common.dtname(exp), distinct_neighbours=(kind == "rr"))
+    conds += c14.canon_conds(ev["flat"], vv["flat"], exp.shape[0], common.dtname(exp), distinct_neighbours=(kind in ("rr", "rr_shared")))
     return dict(goal=specs.conj(conds), got=got, case=case)
 
 
@@ -136,7 +159,7 @@ def conc(case):
     canon = True
     if got["k"] == "tuple" and got["items"][0]["k"] == "tuple" and len(got["items"][0]["items"]) == 4:
         from . import c15
-        canon = c15._canonical_concrete(got["items"][0], need_distinct=(kind == "rr"))
+        canon = c15._canonical_concrete(got["items"][0], need_distinct=(kind in ("rr", "rr_shared")))
         got["items"][0] = dict(k="tuple", items=got["items"][0]["items"][:2] + [dict(k="scalar", val=canon, dtype="py")])      # decoded content + canonical-form verdict
     da = typed(c["a"], dta)
     A = common.ref_array
@@ -154,6 +177,8 @@ def conc(case):
         e = getattr(np, op)(da)
     elif kind == "rr":
         e = getattr(np, op)(da, typed(c["b"], dtb))
+    elif kind == "rr_shared":
+        e = _shared_dense(np, op, da, c["s"], c["s2"])
     elif kind == "rs":
         e = getattr(np, op)(da, c["s"])
     elif kind == "sr":
@@ -206,6 +231,8 @@ def jobs(tier, seed):
     for op in ("sum", "npsum", "mean", "max"):
         out.append(dict(kind="reduce", op=op, n=n + 1, dta="bool"))
     out.append(dict(kind="rr", op="logical_or", n=n, dta="bool", dtb="bool"))
+    for op in ("between", "selfsub", "timesmask"):
+        out.append(dict(kind="rr_shared", op=op, n=n))
     out.append(dict(kind="rr", op="add", n=n, dta="uint8", dtb="int8"))
     return [dict(h="C16.arith", p=p) for p in out]
 
